@@ -268,6 +268,11 @@ def templates(tier):
     yield "aug:subsub", "p(1)[p(2)][p(3)] -= p(0)", ""
     yield "aug:subtuple", "p(1)[p(2), p(3)] *= p(0)", ""
     yield "aug:fullslice", "p(1)[p(2):p(3):p(4)] |= p(0)", ""
+    yield "aug:name-attrchain", "x.a.b += p(0)", "x = pv(9)"
+    yield "aug:name-attr-sub", "x.a[p(2)] -= p(0)", "x = pv(9)"
+    yield "aug:name-attr-slice", "x.a.b[p(2):p(3)] *= p(0)", "x = pv(9)"
+    yield "asg:ann-sub", "p(1)[p(2)]: int = p(0)", ""
+    yield "asg:ann-slice", "p(1)[p(2):p(3)]: 'T' = p(0)", ""
     yield "aug:name-sub", "x[p(2)] += p(0)", "x = pv(9)"
     yield "aug:name-attr", "x.a += p(0)", "x = pv(9)"
     # ---- calls and expression statements
